@@ -339,6 +339,15 @@ func (eng *Engine) verifyFunctionSpec(fn *ssa.Function, modes Modes, spec map[st
 	if modes.Probes {
 		g.oblige("PROBE", "entry-reachable", "true", "false", eng.prog.Fset.Position(fn.Pos()), "must-fail reachability probe after requires").probe = true
 	}
+	if fnHasGo(fn) {
+		// the ghost spawn counter changes inside loops: it is part of what loop heads forget
+		for len(g.modKindsOnly) < len(g.modRefs) {
+			g.modKindsOnly = append(g.modKindsOnly, modTarget{})
+		}
+		g.modRefs = append(g.modRefs, ghostSpawnRef)
+		g.modRanges = append(g.modRanges, modRange{ghostSpawnRef, "", ""})
+		g.modKindsOnly = append(g.modKindsOnly, modTarget{kinds: map[string]bool{"I": true}})
+	}
 	g.seq++
 	g.entrySeq = g.seq
 	top.run2(args, st0, "true")
